@@ -25,10 +25,11 @@ fn text(u: &mut Unstructured, min: usize, limit: usize, alphas: &[u8]) -> AResul
 
 fn addr(u: &mut Unstructured) -> AResult<RAddr> {
     let port: u16 = u.arbitrary()?;
-    Ok(if u.arbitrary::<bool>()? {
-        RAddr::V4(u.arbitrary()?, port)
-    } else {
-        RAddr::V6(u.arbitrary()?, port)
+    Ok(match u.arbitrary::<u8>()? % 4 {
+        0 => RAddr::V4(u.arbitrary()?, port),
+        1 => RAddr::V6(u.arbitrary()?, port),
+        2 => RAddr::V6(crate::gen::special_v6(u.arbitrary()?, u.arbitrary()?, u.arbitrary()?), port),
+        _ => RAddr::V4(crate::gen::special_v4(u.arbitrary()?), port),
     })
 }
 
